@@ -18,6 +18,9 @@ namespace verif {
 struct Tag {};
 inline std::vector<std::string> &calls() { static std::vector<std::string> l; return l; }
 inline int &counter() { static int c = 0; return c; }
+inline std::map<std::string, int> &live() { static std::map<std::string, int> m; return m; }
+struct Counted { std::string cls; Counted(const std::string &c) : cls(c) { ++live()[cls]; } Counted(const Counted &o) : cls(o.cls) { ++live()[cls]; }
+                 Counted &operator=(const Counted &) { return *this; } ~Counted() { --live()[cls]; } };
 template <class T> struct TN { static std::string s() { return "?"; } };
 }
 #define VERIF_TN(T, S) namespace verif { template <> struct TN< T > { static std::string s() { return S; } }; }
@@ -86,13 +89,13 @@ def _tn_expr(qual, params):
     """C++ expression for the logged name of a class: literal for plain classes, built from TN<> for templates"""
     if not params:
         return 'std::string("%s")' % qual
-    return 'std::string("%s<") + %s + ">"' % (qual, ' + ", " + '.join("verif::TN<%s>::s()" % p for p in params))
+    return 'std::string("%s<") + %s + ">"' % (qual, ' + "," + '.join("verif::TN<%s>::s()" % p for p in params))
 
 
 def _fn_name_expr(owner_expr, name, tparams):
     e = (owner_expr + ' + ' if owner_expr else '') + 'std::string("%s%s")' % ("::" if owner_expr else "", name)
     if tparams:
-        e += ' + "<" + ' + ' + ", " + '.join("verif::TN<%s>::s()" % p for p in tparams) + ' + ">"'
+        e += ' + "<" + ' + ' + "," + '.join("verif::TN<%s>::s()" % p for p in tparams) + ' + ">"'
     return e
 
 
@@ -140,6 +143,7 @@ def class_def(c, ns, indent):
     out.append(pad + "  typedef int Value; typedef int Type; typedef int shared_ptr; typedef int Sub;")
     if not c["hasbase"]:
         out.append(pad + "  int verif_id = 0;")
+    out.append("%s  verif::Counted verif_live{%s};" % (pad, cname))
     out.append("%s  %s(verif::Tag)%s {}" % (pad, c["name"], binit))
     if c["virtual"] or True:
         out.append(pad + "  virtual ~%s() {}" % c["name"])
@@ -210,7 +214,24 @@ def defs(items, ns, indent=0):
     return out
 
 
-def header(tree):
+MEX_SHIM = r'''
+// what harness/mexmock/session_driver.cpp reads
+static std::vector<std::string> &calllog = verif::calls();
+static std::map<std::string, int> &livecount = verif::live();
+'''
+
+
+def header(tree, mex=False):
+    """mex=True: for the MATLAB gateway build - gtsam::Point3 is the MEX mock's stand-in (matlab.h includes it)"""
+    if mex:
+        pre = PRELUDE.replace("struct Point3 { VERIF_NESTED Point3() {} Point3(verif::Tag) {} };", "") \
+                     .replace("struct Vector { VERIF_NESTED Vector() {} Vector(verif::Tag) {} };", "") \
+                     .replace('VERIF_TN(::Vector, "Vector")', "") \
+                     .replace('VERIF_TN(::gtsam::Point3, "gtsam::Point3")', "") \
+                     .replace("#pragma once", "#pragma once\n#include <gtsam/geometry/Point3.h>")
+        fwd, tn = [], []
+        forward(tree, [], fwd, tn)
+        return pre + MEX_SHIM + "\n".join(fwd) + "\n" + "\n".join(tn) + "\n" + "\n".join(defs(tree, [])) + "\n"
     fwd, tn = [], []
     forward(tree, [], fwd, tn)
     return PRELUDE + "\n".join(fwd) + "\n" + "\n".join(tn) + "\n" + "\n".join(defs(tree, [])) + "\n"
